@@ -71,6 +71,23 @@ Theorem C02_jit_equals_seq : forall (copy : S -> S) (sh : Sh) (clients : list (I
   (forall s, copy s = s) ->
   jit_run init step final copy sh clients = map (run_seq init step final sh) clients.
 Proof. exact (jit_equals_seq init step final). Qed.
+(* Wave 4 -- translated = model: the loops GENERATED from run_client (jit), from the body of the
+   per-client loop of the debug backend and from run_block (pmap) are the accumulator folds *)
+Theorem C02_translated_jit_loop : forall (i : Sh -> Cin -> S) sh bs cin,
+  jit_run_client_gen i step final sh bs cin
+  = let (st, rs) := fold_left (loop_body step) bs (i sh cin, []) in (final sh st, rs).
+Proof. exact (jit_run_client_gen_fold step final). Qed.
+
+Theorem C02_translated_debug_loop : forall sh bs cin,
+  debug_run_client_gen init step final sh bs cin
+  = let (st, rs) := fold_left (loop_body step) bs (init sh cin, []) in (final sh st, rs).
+Proof. exact (debug_run_client_gen_fold init step final). Qed.
+
+Theorem C02_translated_run_block : forall sh (blk : @block Id Cin B),
+  run_block init step final zero_r sh blk
+  = let (p_state, p_res) := fold_left (p_loop_body step zero_r) (blk_mb blk) (map (init sh) (blk_cin blk), []) in
+    (map (final sh) p_state, p_res).
+Proof. exact (run_block_unfold init step final zero_r). Qed.
 End C02.
 
 (* thread scoping: for every interleaving (global schedule) of the operations of any
@@ -140,6 +157,36 @@ Theorem C02_model_anchored :
   pmap_inputs_are_stacked_copies = true.
 Proof. exact model_anchored. Qed.
 
+(* Wave 4 -- what the context manager and BackendChoice.get, translated from the source, compute *)
+Theorem C02_translated_backend_choice :
+  (forall b cur, ctx_enter b cur = (b, cur)) /\
+  (forall old cur, ctx_exit old cur = old) /\
+  ctx_exit_on_exception = true /\
+  (forall d cur, choice_get d cur =
+     (Some (match cur with Some b => b | None => d end), Some (match cur with Some b => b | None => d end))).
+Proof. exact choice_code_translated. Qed.
+
+(* sentinel collision: a real client whose id is the value None / -1 is kept (Id := option Z) *)
+Example C02_real_none_id_kept :
+  let init (sh cin : Z) := sh + cin in
+  let step (s b : Z) := (s + b, s) in
+  let final (sh s : Z) := s in
+  let zero (_ : Z) := 0 in
+  let clients : list (option Z * list Z * Z) := [(None, [1; 2], 10); (Some (-1), [], 20); (Some 7, [5], 30)] in
+  let out := pmap_run init step final zero zero zero 2 100 clients in
+  length out = 3%nat /\ In (Some None, 113, [110; 111]) out /\ In (Some (Some (-1)), 120, []) out /\
+  In (Some (Some 7), 135, [130]) out /\ ~ In None (map (fun r => fst (fst r)) out).
+Proof. exact real_none_id_kept. Qed.
+
+(* the hypotheses of the theorems (balanced, os_wf, no_from_b, caller buffers alive) have
+   non-trivial instances *)
+Example C02_hypotheses_inhabited :
+  balanced [BSet (Some 2); BEnter (Some 3); BGet; BEnter None; BSet (Some 2); BExitExc; BEnterBad; BExit; BGet] /\
+  os_wf (mk_os 5 [3%nat; 1%nat]) /\ no_from_b [OFresh; OFromA 1%nat] /\
+  Forall (fun b => (b < os_next (mk_os 5 [3%nat]))%nat /\ alive (mk_os 5 [3%nat]) b = true)
+         (caller_bufs [0%nat] [([[1%nat]; [2%nat]], [4%nat])]).
+Proof. exact hypotheses_inhabited. Qed.
+
 (* non-vacuity: 3 clients with 2, 0 and 3 batches on 2 devices; step divides by the
    batch (so the padding batch 0 hits the unconstrained branch, here 999) *)
 Example C02_example :
@@ -173,3 +220,7 @@ Print Assumptions C02_caller_buffers_not_donated.
 Print Assumptions C02_no_copy_refuted.
 Print Assumptions C02_step_alias_refuted.
 Print Assumptions C02_model_anchored.
+Print Assumptions C02_translated_jit_loop.
+Print Assumptions C02_translated_debug_loop.
+Print Assumptions C02_translated_run_block.
+Print Assumptions C02_translated_backend_choice.
